@@ -24,6 +24,9 @@ CANON_FNS = {"jax.flatten_util.ravel_pytree", "jax.tree_util.tree_leaves",
              "jax.tree_util.tree_map", "jax.tree.map"}
 
 
+_REPO = None
+
+
 def order_of(t, depth=0):
     """Abstract leaf order of the coordinates of an array-valued term."""
     if depth > 60 or not isinstance(t, tuple) or not t:
@@ -67,6 +70,12 @@ def order_of(t, depth=0):
                 return CANON
             if g[0] == "g" and g[1] in ("jax.numpy.ravel",) and t[2]:
                 return order_of(t[2][0], depth + 1)
+            if g[0] in ("fn", "g") and _REPO is not None:
+                # a named (local / module-level) function: the order of what it returns
+                from .common import fn_parts
+                parts = fn_parts(_REPO, g)
+                if parts is not None and parts[1] is not None:
+                    return order_of(parts[1], depth + 1)
             return UNKNOWN
         # x.at[...].add(v) / set(v)
         if f[0] == "a" and f[2] in ("add", "set", "multiply") and f[1][0] == "s" \
@@ -173,7 +182,8 @@ def iter_order(it, depth=0):
 
 
 def check(ctx):
-    repo = ctx.repo
+    global _REPO
+    repo = _REPO = ctx.repo
     ctx.rule("R1", "every value stored into kernel_state.inverse_mass_matrix has the leaf "
                    "order of ravel_pytree(position) (CANON / SORTED).")
     ctx.rule("R2", "the tuner sees the history of the kernel's own position keys only; the "
